@@ -67,3 +67,10 @@ def applied (s : State) (op : Op) : Bool :=
 end
 
 end Poly.Model.Gov
+
+namespace Poly.Model.Gov
+/-- Along the run of `ops` from `s`, no transaction creates the request `q`. -/
+def NoFreshRequest (H : Bytes → Bytes) (s : State) : List Op → Req → Prop
+  | [], _ => True
+  | op :: rest, q => creates s op ≠ some q ∧ NoFreshRequest H (step H s op) rest q
+end Poly.Model.Gov
